@@ -170,6 +170,15 @@ def run(argv):
             shutil.rmtree(root, ignore_errors=True)
     finally:
         shutil.rmtree(base, ignore_errors=True)
+    evp = os.path.join(core.VERIF, "evidence", "selftest-mutants.json")
+    if only and os.path.exists(evp):
+        # a partial re-run (names given on the command line) updates those rows of the last full run
+        try:
+            prev = json.load(open(evp)).get("results", [])
+        except Exception:  # noqa
+            prev = []
+        done = {r["mutant"] for r in results}
+        results = sorted([r for r in prev if r.get("mutant") not in done] + results, key=lambda r: r.get("mutant", ""))
     caught = sum(1 for r in results if r["status"] == "caught")
     print("selftest-mutants: %d/%d caught, wall=%.0fs" % (caught, len(results), time.time() - t0))
     core.write_json(os.path.join(core.VERIF, "evidence", "selftest-mutants.json"), {"results": results, "caught": caught, "total": len(results)})
